@@ -39,7 +39,8 @@ def declare(reg, eng):
     import z3
     from pyvc.vals import Val
     from pyvc.state import V
-    reg.consts["exit_code_of_body"] = ("term", V(z3.Const("exit_code_of_body", Val), None))
+    # (environment: a task body that exits does so with an integer status)
+    reg.consts["exit_code_of_body"] = ("term", V(Val.IntV(z3.Int("exit_code_of_body")), "int"))
 
     eng.load("rmfile", "run.py", inline=True)
     eng.load("TaskRunner.run", "run.py")
@@ -79,7 +80,10 @@ def declare(reg, eng):
                                             ("C10", "not isfile(self.pidfile) or effect_count('atexit.register') > effect_count('atexit.unregister')"),
                                         ]}},
                  effect_guards={
-                     "touch": [("C10", "_arg0 == self.donepath and effect('body')")],
+                     "touch": [("C10", "_arg0 == self.donepath and effect('body')"),
+                               # the success marker is written while every job lock is still held: a process waiting for the lock
+                               # sees the marker as soon as it gets the lock (otherwise it would run the body again)
+                               (("C05", "C10"), "length(self.locks) == length(self.lockfiles) and forall(k, 0, length(self.locks), at(self.locks, k).acquired)")],
                      "body": [(("C10", "C05"), "not isfile(self.donepath) and length(self.locks) == length(self.lockfiles) "
                                               "and forall(k, 0, length(self.locks), at(self.locks, k).acquired)"),
                               ("C10", "not isfile(self.failedpath)")],
